@@ -1,7 +1,8 @@
 From Coq Require Extraction ExtrOcamlBasic.
 From PV Require Import Lib.Bytes Model.Redundant Model.RedundantPaths Model.RedundantCond Spec.MakeEval Spec.VerdictSound
-  Spec.PathDenote Spec.SpellingIndep.
+  Spec.PathDenote Spec.SpellingIndep Model.RedundantDir Spec.MakeEvalDir Spec.VerdictSoundDir.
 (* oracle/common.ml mentions the type z; nothing in this model uses Z *)
 Definition c17_zero : Z := 0%Z.
 Extraction "C17_model.ml" check changed_vars guard wf_program final to_spec vars_of delete_nth c17_zero
-  intern_by check_spelled check_denoted one_spelling_b analysed_alone same_denotation check_c.
+  intern_by check_spelled check_denoted one_spelling_b analysed_alone same_denotation check_c
+  check_file check_pkg find_guard changed_vars_d final_d to_spec_d vars_of_d in_conditional_section.
